@@ -3,14 +3,18 @@
 package core2
 
 import (
+	"bytes"
 	"fmt"
+	"io"
 	"net"
 	"runtime"
 	"sort"
 	"sync"
+	"sync/atomic"
 	"testing"
 	"time"
 
+	"github.com/hashicorp/go-msgpack/v2/codec"
 	"github.com/hashicorp/serf/serf"
 	"pgregory.net/rapid"
 
@@ -63,6 +67,14 @@ type c07Case struct {
 	// this long for the counters serf bumps between its "query finished?" test
 	// and the hand-over to the stream
 	SlowSinkUs int `json:"slow_sink_us,omitempty"`
+	// Streams: duplicates of a phase-0 reply arrive concurrently, one as a
+	// packet and the others as user messages on memberlist stream connections
+	// of their own. memberlist hands every stream connection to a goroutine of
+	// its own (net.go: handleConn -> readUserMsg -> Delegate.NotifyMsg), so
+	// replies that arrive that way are handled concurrently with each other
+	// and with the packet handler; serf's own senders use packets, any other
+	// speaker of the memberlist protocol may use streams.
+	Streams bool `json:"streams,omitempty"`
 }
 
 func genC07(t *rapid.T) c07Case {
@@ -102,6 +114,13 @@ func genC07(t *rapid.T) c07Case {
 		at := rapid.IntRange(0, len(c.Replies)).Draw(t, "motif-at")
 		c.Replies = append(c.Replies[:at:at], append(motif, c.Replies[at:]...)...)
 		nr = len(c.Replies)
+	}
+	if rapid.IntRange(0, 3).Draw(t, "streams?") == 0 {
+		c.Streams = true
+		// such a case has duplicates that arrive right away, for sure
+		k := rapid.IntRange(0, nr-1).Draw(t, "streams-dup")
+		c.Replies[k].Phase, c.Replies[k].IDMode = 0, 0
+		c.Replies[k].Copies = rapid.IntRange(2, 3).Draw(t, "streams-copies")
 	}
 	if rapid.IntRange(0, 2).Draw(t, "slow-sink?") == 0 {
 		c.SlowSinkUs = rapid.SampledFrom([]int{100, 300}).Draw(t, "slow-sink")
@@ -283,6 +302,7 @@ func bodyC07(c c07Case, x *vkit.Ctx) {
 	deliver := func(serfMsg []byte) {
 		n.Tr.Inject(originIP+fmt.Sprint(":", originPort), append([]byte{8}, serfMsg...)) // 8 = memberlist's user-message type
 	}
+	streamsUsed, streamFail := 0, ""
 	markers := 0
 	drained := func() bool {
 		// two rounds: whatever the first round's predecessors made the node send to itself is behind the first marker
@@ -338,6 +358,57 @@ func bodyC07(c c07Case, x *vkit.Ctx) {
 			buf = mustEncode(serf.VerifMessageQueryResponseType, m)
 		}
 		sentLog = append(sentLog, sent{lt, id, r.Ack, from, payload, time.Now()})
+		if c.Streams && r.Phase == 0 && copies > 1 {
+			// all copies at once: copy 0 as a packet, the others on stream
+			// connections of their own; every goroutine of the node lingers after
+			// releasing one of serf's mutexes (helpers_test.go: lockYield). A
+			// stream handler closes its connection when it is done, which is how
+			// the harness knows that the copy has been handled.
+			streamsUsed++
+			lockYield(1 + (ri+streamsUsed)%2)
+			var ready atomic.Int32
+			var wg sync.WaitGroup
+			failed := make([]string, copies)
+			for k := 0; k < copies; k++ {
+				wg.Add(1)
+				go func(k int) {
+					defer wg.Done()
+					var cn net.Conn
+					if k > 0 {
+						var err error
+						if cn, err = n.Tr.InjectStream(originIP+fmt.Sprint(":", originPort), 2*time.Second); err != nil {
+							failed[k] = "dial: " + err.Error()
+							ready.Add(1)
+							return
+						}
+						defer cn.Close()
+					}
+					ready.Add(1)
+					for t0 := time.Now(); ready.Load() < int32(copies) && time.Since(t0) < 500*time.Microsecond; {
+					}
+					if k == 0 {
+						deliver(buf)
+						return
+					}
+					_ = cn.SetDeadline(time.Now().Add(5 * time.Second))
+					if _, err := cn.Write(streamUserMsg(buf)); err != nil {
+						failed[k] = "write: " + err.Error()
+						return
+					}
+					if _, err := io.Copy(io.Discard, cn); err != nil {
+						failed[k] = "wait for the handler: " + err.Error()
+					}
+				}(k)
+			}
+			wg.Wait()
+			lockYield(0)
+			for _, f := range failed {
+				if f != "" && streamFail == "" {
+					streamFail = f
+				}
+			}
+			return
+		}
 		for k := 0; k < copies; k++ {
 			deliver(buf)
 			if r.Phase != 1 {
@@ -356,6 +427,13 @@ func bodyC07(c c07Case, x *vkit.Ctx) {
 				hasDup = true
 			}
 		}
+	}
+	if streamFail != "" {
+		x.Inconclusive("stream delivery: " + streamFail)
+		return
+	}
+	if streamsUsed > 0 {
+		x.Label("duplicates-arrive-concurrently-over-streams")
 	}
 	// phase 1: bursts of distinct senders across each target's deadline, earliest deadline first
 	var bursts []int
@@ -518,3 +596,14 @@ func bodyC07(c c07Case, x *vkit.Ctx) {
 }
 
 func TestC07(t *testing.T) { vkit.Run(t, "C07", genC07, bodyC07) }
+
+// streamUserMsg frames a user message the way memberlist's sendUserMsg does on
+// a stream connection: the message type, the msgpack header with the length,
+// the message.
+func streamUserMsg(msg []byte) []byte {
+	var hdr bytes.Buffer
+	if err := codec.NewEncoder(&hdr, &codec.MsgpackHandle{}).Encode(struct{ UserMsgLen int }{len(msg)}); err != nil {
+		panic(err)
+	}
+	return append(append([]byte{8}, hdr.Bytes()...), msg...)
+}
